@@ -91,3 +91,20 @@ func VerifScriptSetRoundTrip(ss ScriptSet) (ScriptSet, error) {
 	_, err := out.deserializeFrom(ss.serialize())
 	return out, err
 }
+
+// VerifEntry is the projection of one file entry of an index: its path, modification time
+// and the complete binary serialization of its footprints.
+type VerifEntry struct {
+	Path       string
+	ModTime    int64
+	Footprints []byte
+	NbFonts    int
+}
+
+func VerifEntries(idx VerifIndex) []VerifEntry {
+	out := make([]VerifEntry, len(idx))
+	for i, f := range idx {
+		out[i] = VerifEntry{Path: f.path, ModTime: int64(f.modTime), Footprints: serializeFootprintsTo(f.footprints, nil), NbFonts: len(f.footprints)}
+	}
+	return out
+}
